@@ -110,21 +110,69 @@ def _worker_entry(args):
         return r
 
 
+def _task_child(i, conn):
+    try:
+        r = _worker_entry(_TASKS[i])
+        conn.send(r)
+    except BaseException:
+        try:
+            r = Result()
+            r.failures.append(dict(why="harness exception in worker", harness_error=True, trace=traceback.format_exc()))
+            conn.send(r)
+        except Exception:
+            pass
+    finally:
+        conn.close()
+        os._exit(0)
+
+
 def run_workers(fn, arglist, procs=None):
-    """Run fn(*args) for each args tuple in a fork pool; returns merged Result."""
+    """Run fn(*args) for each args tuple, each in a forked process of its own, at most `procs` at a time; returns the
+    merged Result. A process that dies without delivering its result (killed from outside, out of memory) is run
+    once more; a second death is a harness error, never a hang and never a verdict."""
     procs = procs or min(NCPU, len(arglist))
     total = Result()
     if procs <= 1 or len(arglist) == 1:
         for a in arglist:
             total.merge(_worker_entry((fn, a)))
         return total
-    # tasks are inherited through fork (they may contain closures); only the index is sent to the worker
+    # tasks are inherited through fork (they may contain closures); only the result travels back
     global _TASKS
     _TASKS = [(fn, a) for a in arglist]
     ctx = multiprocessing.get_context("fork")
-    with ctx.Pool(procs) as pool:
-        for r in pool.imap_unordered(_worker_index, range(len(_TASKS))):
-            total.merge(r)
+    from multiprocessing.connection import wait as mp_wait
+    pending = list(range(len(_TASKS)))
+    attempts = collections.Counter()
+    running = {}        # conn -> (index, process)
+    while pending or running:
+        while pending and len(running) < procs:
+            i = pending.pop(0)
+            attempts[i] += 1
+            rd, wr = ctx.Pipe(duplex=False)
+            sys.stdout.flush()
+            sys.stderr.flush()
+            pr = ctx.Process(target=_task_child, args=(i, wr))
+            pr.start()
+            wr.close()
+            running[rd] = (i, pr)
+        for rd in mp_wait(list(running), timeout=5):
+            i, pr = running.pop(rd)
+            try:
+                r = rd.recv()
+            except (EOFError, OSError):
+                r = None
+            rd.close()
+            pr.join()
+            if r is None:
+                if attempts[i] < 2:
+                    pending.append(i)
+                    total.notes.append("worker %d died (exit code %s) without a result: run again" % (i, pr.exitcode))
+                else:
+                    lost = Result()
+                    lost.failures.append(dict(why="worker %d died twice (exit code %s) without a result" % (i, pr.exitcode), harness_error=True, trace=""))
+                    total.merge(lost)
+            else:
+                total.merge(r)
     _TASKS = []
     return total
 
